@@ -214,8 +214,30 @@ def run(ctx):
     # the innermost `if` / `elif` enclosing the raise mentions conf_kwargs['<option>'] (or a local assigned from
     # it, or conf_kwargs[<loop variable>] of a loop over a folded tuple of option names).  Merely *reading* an
     # option (e.g. to default another one) is not validation.
-    for vm, vf in vfuncs:
-        p0 = vf.args.args[0].arg
+    # … including the private helpers a validator hands the options dictionary to (a validator split in two)
+    work = [(vm, vf, vf.args.args[0].arg, 0) for vm, vf in vfuncs]
+    seen_v = {id(vf) for _, vf in vfuncs}
+    expanded = []
+    while work:
+        vm, vf, p0, depth = work.pop(0)
+        expanded.append((vm, vf, p0))
+        if depth >= 3:
+            continue
+        for c in calls_in(vf):
+            pos = [i for i, a in enumerate(c.args) if dotted(a) == p0]
+            kws = [k.arg for k in c.keywords if dotted(k.value) == p0 and k.arg]
+            if not pos and not kws:
+                continue
+            cd = callee_def(repo, vm, c)
+            if not cd or id(cd[1]) in seen_v:
+                continue
+            hm, hf = cd
+            names = [a.arg for a in hf.args.posonlyargs + hf.args.args]
+            pn = kws[0] if kws else (names[pos[0]] if pos[0] < len(names) else None)
+            if pn:
+                seen_v.add(id(hf))
+                work.append((hm, hf, pn, depth + 1))
+    for vm, vf, p0 in expanded:
         alias = {}
         for a in ast.walk(vf):
             if isinstance(a, ast.Assign) and isinstance(a.targets[0], ast.Name) and isinstance(a.value, ast.Subscript) \
